@@ -118,7 +118,7 @@ func init() {
 							continue
 						}
 						cmd := model.CmdType{}
-						cmd.SetDataForFunction(fn.Fn, reflect.New(info.DataType).Interface())
+						SetCmdData(&cmd, fn.Fn, reflect.New(info.DataType).Interface())
 						cf := a.clientFor(p, s)
 						c := p.SendCmd(cf.Address(), s.Address(), model.CmdClassifierTypeRead, nil, cmd, "read")
 						if w.T.Bool(1, 2, "await-read") {
